@@ -18,7 +18,7 @@ def run(res, tier):
     conc.concurrent_check(
         res, 'C01', tier, 'c01.cpp', 'unique', RULES,
         quick_args=['--mode', 'dfs', '--pb', '2', '--wb', '0'],
-        thorough_args=['--mode', 'dfs', '--pb', '4', '--wb', '0', '--max-exec', '2000000'],
+        thorough_args=['--mode', 'dfs', '--pb', '5', '--wb', '0', '--max-exec', '2000000', '--big'],
         search_args=[['--mode', 'dfs', '--pb', '3', '--wb', '0', '--max-exec', '300000'],
                      ['--mode', 'random', '--random-runs', '3000']],
         unmodelled_ok=STALE)
